@@ -746,6 +746,7 @@ func runC16(c *Ctx) {
 	c.Rule = "exhaustive: every byte string of length <= 2 over all 256 byte values and of length <= L (3 quick / 4 thorough) over the " +
 		"29-symbol significant alphabet (incl. \\v \\f), both lexer modes; random longer inputs over a weighted alphabet; byte mutations of /repo/examples/*.gr. " +
 		"volume histories: witness tokens kept from the start compared by pointer after 44-100 MiB of distinct 1 MiB strings, one input with two 17 MiB comments per mode, 2e5-1e6 distinct identifiers/numbers. " +
+		"escape truncation: \\x \\u \\U \\u{ \\x{ with every leading hex-digit pair (22x22) cut after 0..n digits by end of input / quote / backslash / non-hex, surrogate halves and pairs with the second escape cut at every length, octal forms; all constructors. " +
 		"long tokens: identifier, integer, float, hex, both string kinds, both comment kinds, unterminated string / comment at every length 2^k-1..2^k+1 (k=4..16) and around 1000/1024/4096/65536, twice per input, both modes (over 2048 bytes: direct oracle only). " +
 		"special first bytes: BOMs, shebang, magic and multi-byte prefixes (whole/truncated) x bodies and all strings of length <= 3/4 over 15 lead bytes, through New, NewBytes and NewLineMode, Pos() judged against the caller's buffer. " +
 		"structured numbers: every combination of prefix (0x 0X 0b 0o), digits/underscores, dot, fraction, exponent marker e E p P, sign, exponent digits and a following non-digit, alone and inside expressions. " +
@@ -818,6 +819,69 @@ func runC16(c *Ctx) {
 		}
 		c16One(c, []byte("//"+a+"x"+a+"\ny"))
 	}
+	// escape truncation: every escape form of string literals (\x \u \U \u{ octal, surrogate halves and pairs) with every
+	// leading hex-digit pair, cut after 0..n digits by the end of input / the closing quote / another backslash / a
+	// non-hex byte, at the start of the input and after other tokens; all constructors, both modes (panics are caught by
+	// lexRun and reported as lexer-panic; the end marker must still come within n+1 tokens)
+	seenEsc := map[string]bool{}
+	nEsc := 0
+	escOne := func(w string) {
+		if seenEsc[w] {
+			return
+		}
+		seenEsc[w] = true
+		nEsc++
+		c16OneX(c, []byte(w), true)
+	}
+	hexd := "0123456789abcdefABCDEF"
+	filler := "3d9fe0"
+	terms := []string{"", "\"", "\\", "g", "\" + 1"}
+	type head struct {
+		h    string
+		cuts []int
+	}
+	heads := []head{{"\\x", []int{0, 1, 2}}, {"\\u", []int{0, 1, 2, 3, 4}}, {"\\U", []int{0, 1, 2, 3, 4, 5, 7, 8}},
+		{"\\u{", []int{0, 1, 2, 4, 6}}, {"\\x{", []int{0, 2}}}
+	for i := 0; i < len(hexd); i++ {
+		for j := 0; j < len(hexd); j++ {
+			lower := i < 16 && j < 16
+			pair := string([]byte{hexd[i], hexd[j]})
+			for _, hd := range heads {
+				for _, n := range hd.cuts {
+					d := (pair + filler)[:n]
+					for _, tm := range terms {
+						escOne("\"" + hd.h + d + tm)
+						if lower {
+							escOne("x = \"\xc3\xa9" + hd.h + d + tm)
+						}
+						if hd.h == "\\u{" || hd.h == "\\x{" {
+							escOne("\"" + hd.h + d + "}" + tm)
+						}
+					}
+				}
+			}
+		}
+	}
+	// surrogate halves and pairs, the second escape cut at every length
+	for _, hi := range []string{"\\ud800", "\\ud83d", "\\udbff", "\\uD83D", "\\udc00", "\\udfff"} {
+		for _, lo := range []string{"\\ude00", "\\udc00", "\\udfff", "\\uDE00", "\\ud83d", "\\u0041", "\\U0001F600", "\\x41", "\\n", "\\"} {
+			for n := 0; n <= len(lo); n++ {
+				for _, tm := range terms {
+					escOne("\"" + hi + lo[:n] + tm)
+					escOne("s = \"a" + hi + lo[:n] + tm)
+				}
+			}
+		}
+	}
+	// octal and other single-character forms
+	for _, o := range []string{"\\0", "\\1", "\\7", "\\8", "\\12", "\\123", "\\377", "\\400", "\\1234", "\\N{", "\\N{DIGIT ONE}", "\\e", "\\'", "\\`", "\\\n", "\\\x00"} {
+		for _, tm := range terms {
+			escOne("\"" + o + tm)
+			escOne("x = \"\xc3\xa9" + o + tm)
+			escOne("`" + o + tm)
+		}
+	}
+	c.Count(fmt.Sprintf("escape-truncations=%d", nEsc))
 	// long tokens: every value-token kind at lengths around the powers of two and 1000/1024/4096/65536, twice in the
 	// input (identity inside one lexer) and in both modes (identity across lexers); text = span at every length
 	lens := map[int]bool{}
